@@ -50,6 +50,15 @@ Definition all_cmpops := [CEqual; CGreaterThan; CGreaterThanEqual; CIn; CIs; CLe
 
 Definition decode {A} (code : A -> Z) (all : list A) (z : Z) : option A := find (fun o => Z.eqb (code o) z) all.
 
+(* the expressions CPython compiles into jumps when they stand in a boolean context *)
+Definition jumpy (e : expr) : bool :=
+  match e with
+  | EBool _ _ _ _ => true
+  | EUn _ UNot _ => true
+  | EIfExp _ _ _ _ => true
+  | _ => false
+  end.
+
 Section Sem.
   (* ---------------------------------------------------------------- the uninterpreted data semantics *)
   Variable val : Type.
@@ -78,6 +87,7 @@ Section Sem.
   Variable p_exc : string -> string -> world -> val * world.          (* the interpreter's own exceptions: class, message *)
   Variable p_assertion : option val -> world -> val * world.          (* AssertionError(msg) *)
   Variable p_with_cause : val -> val -> world -> val * world.         (* raise e from c *)
+  Variable p_as_exc : val -> world -> val * world.                    (* what `raise v` raises: v, an instance of the class v, or a TypeError *)
   Variable p_is_exception : val -> bool.                              (* isinstance(e, Exception): what the module wrapper catches *)
   Variable as_fun : val -> option nat.                                (* program-defined function values *)
   Variable mk_fun : nat -> val.
@@ -433,7 +443,8 @@ Section Sem.
       match exc with
       | None => do c <- cur_exc;
                 match c with Some e => raise e | None => raise_builtin "RuntimeError" "No active exception to reraise" end
-      | Some e =>
+      | Some e0 =>
+        do e <- prim_total (p_as_exc e0);
         match cause with
         | None => raise e
         | Some c => do e' <- prim_total (p_with_cause e c); raise e'
@@ -675,8 +686,9 @@ Section Sem.
         match ev_ with
         | None => do c <- cur_exc;
                   match c with Some e => raise e | None => raise_builtin "RuntimeError" "No active exception to reraise" end
-        | Some e =>
+        | Some e0 =>
           do cv <- eval_opt ca;
+          do e <- prim_total (p_as_exc e0);
           match cv with None => raise e | Some c => do e' <- prim_total (p_with_cause e c); raise e' end
         end
       | STry _ body hs orelse final =>
@@ -837,17 +849,17 @@ Section Sem.
         rvc_ c n on l l r
       | EIfExp n t a b =>
         let on := cov "enter_if" || cov "exit_if" in
-        do ct <- rvt_ c t;
         if on then
+          do vt <- (if jumpy t then do x <- rvt_ c t; ret (fst x, Some (snd x)) else do v <- rv_ c t; ret (v, None));
           announce true true n ;;
-          do hi <- ev "enter_control_flow" n [AV (fst ct)];
-          do lo <- ev "enter_if" n [AV (fst ct)];
-          do tt_ <- (match lo, hi with None, None => ret (snd ct) | _, _ => truth (sel3 lo hi (fst ct)) end);
+          do hi <- ev "enter_control_flow" n [AV (fst vt)];
+          do lo <- ev "enter_if" n [AV (fst vt)];
+          do tt_ <- (match lo, hi, snd vt with None, None, Some b_ => ret b_ | _, _, _ => truth (sel3 lo hi (fst vt)) end);
           do v <- (if tt_ then rv_ c a else rv_ c b);
           announce true true n ;;
           ev "exit_control_flow" n [] ;; ev "exit_if" n [] ;;
           ret v
-        else if snd ct then rv_ c a else rv_ c b
+        else do ct <- rvt_ c t; if snd ct then rv_ c a else rv_ c b
       | EAttr n a x =>
         do b <- rv_ c a;
         let on := cov "read_attribute" && negb (r_tgt c) in
@@ -936,17 +948,18 @@ Section Sem.
       | EUn n UNot a => do vt <- reval_tv c a; rnot_events n (fst vt) (snd vt)
       | EIfExp n t a b =>
         let on := cov "enter_if" || cov "exit_if" in
-        do ct <- reval_tv c t;
         if on then
+          do xt <- (if jumpy t then do x <- reval_tv c t; ret (fst x, Some (snd x))
+                    else do v <- reval_body reval reval_tv reval_list reval_cmps c t; ret (v, None));
           announce true true n ;;
-          do hi <- ev "enter_control_flow" n [AV (fst ct)];
-          do lo <- ev "enter_if" n [AV (fst ct)];
-          do tt_ <- (match lo, hi with None, None => ret (snd ct) | _, _ => truth (sel3 lo hi (fst ct)) end);
+          do hi <- ev "enter_control_flow" n [AV (fst xt)];
+          do lo <- ev "enter_if" n [AV (fst xt)];
+          do tt_ <- (match lo, hi, snd xt with None, None, Some b_ => ret b_ | _, _, _ => truth (sel3 lo hi (fst xt)) end);
           do vt <- (if tt_ then reval_tv c a else reval_tv c b);
           announce true true n ;;
           ev "exit_control_flow" n [] ;; ev "exit_if" n [] ;;
           ret vt
-        else if snd ct then reval_tv c a else reval_tv c b
+        else do ct <- reval_tv c t; if snd ct then reval_tv c a else reval_tv c b
       | _ => do v <- reval_body reval reval_tv reval_list reval_cmps c e; do t <- truth v; ret (v, t)
       end
     with reval_list (c : rctx) (es : exprs) : M (list val) :=
@@ -970,6 +983,17 @@ Section Sem.
         | Cnil => ret v'
         | _ => do t <- truth v'; if t then reval_cmps c n on first rv rest else ret v'
         end
+      end.
+
+    (* the value of a test expression for a hook that may replace it, and the (lazily computed) truth of what the
+       hooks leave: a jump-compiled test has already tested its operands, any other value is tested afterwards *)
+    Definition test_value (c : rctx) (e : expr) : M (val * option bool) :=
+      if jumpy e then do vt <- reval_tv c e; ret (fst vt, Some (snd vt))
+      else do v <- reval c e; ret (v, None).
+    Definition decide (vt : val * option bool) (lo hi : option earg) : M bool :=
+      match lo, hi, snd vt with
+      | None, None, Some t => ret t
+      | _, _, _ => truth (sel3 lo hi (fst vt))
       end.
 
     Definition reval_opt (c : rctx) (o : option expr) : M (option val) :=
@@ -1048,13 +1072,13 @@ Section Sem.
           do v' <- raug_events on n o l r v; prim (p_setitem b i v')
         end
       | SIf n c body orelse =>
-        do ct <- reval_tv rc0 c;
         do t <- (if cov "enter_if" then
+                   do vt <- test_value rc0 c;
                    announce true true n ;;
-                   do hi <- ev "enter_control_flow" n [AV (fst ct)];
-                   do lo <- ev "enter_if" n [AV (fst ct)];
-                   match lo, hi with None, None => ret (snd ct) | _, _ => truth (sel3 lo hi (fst ct)) end
-                 else ret (snd ct));
+                   do hi <- ev "enter_control_flow" n [AV (fst vt)];
+                   do lo <- ev "enter_if" n [AV (fst vt)];
+                   decide vt lo hi
+                 else do ct <- reval_tv rc0 c; ret (snd ct));
         (if t then rexec_list k body else rexec_list k orelse) ;;
         exit_event "exit_if" (cov "exit_if") n
       | SWhile n c body orelse =>
@@ -1063,13 +1087,13 @@ Section Sem.
            match j with
            | 0 => fun s => (Fuel, s)
            | S j' =>
-             do ct <- reval_tv rc0 c;
              do t <- (if cov "enter_while" then
+                        do vt <- test_value rc0 c;
                         announce true true n ;;
-                        do hi <- ev "enter_control_flow" n [AV (fst ct)];
-                        do lo <- ev "enter_while" n [AV (fst ct)];
-                        match lo, hi with None, None => ret (snd ct) | _, _ => truth (sel3 lo hi (fst ct)) end
-                      else ret (snd ct));
+                        do hi <- ev "enter_control_flow" n [AV (fst vt)];
+                        do lo <- ev "enter_while" n [AV (fst vt)];
+                        decide vt lo hi
+                      else do ct <- reval_tv rc0 c; ret (snd ct));
              if t then
                do r <- catch (rexec_list k' body);
                match r with
@@ -1126,14 +1150,15 @@ Section Sem.
       | SContinue n => rbrk k false n
       | SPass => ret tt
       | SAssert n c m =>
-        do ct <- reval_tv rc0 c;
         if cov "_assert" then
           (* the message is evaluated only if the assertion fails (and then once) *)
+          do vt <- test_value rc0 c;
           announce true true n ;;
-          do r <- ev "_assert" n [AV (fst ct); ANone];
-          do t <- (match r with None => ret (snd ct) | Some a => truth (arg_val a) end);
+          do r <- ev "_assert" n [AV (fst vt); ANone];
+          do t <- decide vt r None;
           if t then ret tt else do mv2 <- reval_opt rc0 m; do e <- prim_total (p_assertion mv2); raise e
         else
+          do ct <- reval_tv rc0 c;
           if snd ct then ret tt else do mv <- reval_opt rc0 m; do e <- prim_total (p_assertion mv); raise e
       | SRaise n ex ca =>
         do ev_ <- reval_opt rc0 ex;
@@ -1146,7 +1171,9 @@ Section Sem.
         match ev_ with
         | None => do c <- cur_exc;
                   match c with Some e => raise e | None => raise_builtin "RuntimeError" "No active exception to reraise" end
-        | Some e => match cv with None => raise e | Some c => do e' <- prim_total (p_with_cause e c); raise e' end
+        | Some e0 =>
+          do e <- prim_total (p_as_exc e0);
+          match cv with None => raise e | Some c => do e' <- prim_total (p_with_cause e c); raise e' end
         end
       | STry n body hs orelse final =>
         do r <- catch ((if cov "enter_try" then announce true true n ;; ev "enter_try" n [] ;; ret tt else ret tt) ;;
